@@ -360,6 +360,8 @@ class Translator:
             x = self.tr(args[0])
             if isinstance(x, (list, tuple)) and x and all(isinstance(r, (list, tuple)) for r in x) and len({len(r) for r in x}) == 1:
                 return sp.Matrix([list(r) for r in x])  # a literal 2-D array
+            if _is_mat(x) and f.endswith(".array"):
+                return x.copy()  # np.array copies: later element stores must not reach the source (np.asarray may alias it)
             return x
         if f in one and len(args) == 1 and not kw:
             x = self.tr(args[0])
@@ -434,6 +436,27 @@ class Translator:
                 for t in tgts:
                     self._assign(t, val)
             elif isinstance(st, ast.AugAssign):
+                fancy = None
+                if isinstance(st.target, ast.Subscript):
+                    base_ = self.tr(st.target.value)
+                    if _is_mat(base_):
+                        try:
+                            both_ = (tuple(self.tr(x) for x in st.target.slice.elts) if isinstance(st.target.slice, ast.Tuple) and len(st.target.slice.elts) == 2 else self.tr(st.target.slice))
+                        except Unsupported:
+                            both_ = None
+                        if isinstance(both_, tuple) and len(both_) == 2 and all(isinstance(x, (tuple, list)) for x in both_) and len(both_[0]) == len(both_[1]):
+                            fancy = (base_, both_)
+                if fancy is not None:
+                    # M[(i…), (j…)] op= v : element-wise on the addressed entries
+                    base_, (iv_, jv_) = fancy
+                    val = self.tr(st.value)
+                    vals_ = list(val) if isinstance(val, (tuple, list)) else [val] * len(iv_)
+                    fn_ = {ast.Add: lambda a, b: a + b, ast.Sub: lambda a, b: a - b, ast.Mult: lambda a, b: a * b, ast.Div: lambda a, b: a / b}.get(type(st.op))
+                    if fn_ is None or len(vals_) != len(iv_):
+                        raise Unsupported(norm(st))
+                    for a_, b_, v_ in zip(iv_, jv_, vals_):
+                        base_[int(a_), int(b_)] = fn_(base_[int(a_), int(b_)], v_)
+                    continue
                 cur = self.tr(st.target)
                 val = self.tr(st.value)
                 opmap = {
